@@ -282,9 +282,37 @@ fn derived(kind: &str, f: &Value, is_vec: bool) -> bool {
     (is_vec && f["off"] == 3) || (kind == "MSO" && fname(f) == "TextStart")
 }
 
+/// set while C01 borrows this module's frames (see `canonical_frames_for_c01`)
+static C01_MODE: std::sync::atomic::AtomicBool = std::sync::atomic::AtomicBool::new(false);
+
+/// C01's second clause on frames that are canonical by construction: every frame this module builds from the
+/// specification table with `canonical = true` is one the encoder can produce (spare bytes zero, defined enumerants and
+/// flag bits, 0/1 booleans, NUL-padded text), so decoding it and encoding the result must give the identical bytes — a
+/// reader that drops part of a field cannot hide behind its own projection here
+pub fn canonical_frames_for_c01(ctx: &mut Ctx) {
+    C01_MODE.store(true, std::sync::atomic::Ordering::Relaxed);
+    run(ctx);
+    C01_MODE.store(false, std::sync::atomic::Ordering::Relaxed);
+}
+
 fn run_case(ctx: &mut Ctx, ls: &Layouts, k: &Value, compressed: bool, c: &Case, label: &str, model_line: bool, canonical: bool) {
     let kind = k["name"].as_str().unwrap_or("?");
     let input = format!("pkt.rt {}", frame_text(compressed, &c.frame));
+    if C01_MODE.load(std::sync::atomic::Ordering::Relaxed) {
+        if !canonical { return; }
+        ctx.oracle_eval("canonical-frame");
+        if let Dec::Pkt(p, 0) = real_decode(compressed, &c.frame) {
+            match real_encode(compressed, &p) {
+                Some(Ok(b)) if b == c.frame => {},
+                Some(Ok(b)) => {
+                    let at = b.iter().zip(c.frame.iter()).position(|(x, y)| x != y).unwrap_or(b.len().min(c.frame.len()));
+                    ctx.violation(&format!("c01/canonical-reencode/{}@{}", kind, at), &format!("decoding a frame the encoder can produce and re-encoding it does not give the identical bytes ({}; first difference at offset {})", label, at), &input, &hex(&c.frame), &hex(&b));
+                },
+                _ => {},
+            }
+        }
+        return;
+    }
     ctx.oracle_eval(&format!("spec-frame {}", kind));
     if model_line { rt_case(ctx, ls, compressed, &c.frame, true); }
     match real_decode(compressed, &c.frame) {
@@ -295,6 +323,8 @@ fn run_case(ctx: &mut Ctx, ls: &Layouts, k: &Value, compressed: bool, c: &Case, 
             let is_vec = k["tail"]["k"] == "vec";
             for (path, want, f) in &c.expect {
                 if derived(kind, f, is_vec) { continue; }
+                // codepage text: what it decodes to is C10's subject; here only where TextStart points (re-encoded bytes)
+                if kind == "MSO" && label.starts_with("name=") && cls(f) == "text" { continue; }
                 match get_norm(&inner, path) {
                     None => {
                         // hand-written values (IS_SMALL, CIM, CarContact, MSO): compared through the re-encoded bytes only
@@ -404,6 +434,20 @@ pub fn run(ctx: &mut Ctx) {
                     }
                 }
             } else if tail["k"] == "text" {
+                // IS_MSO: TextStart is the offset of the user's text in the *wire* bytes of Msg, also when the name before it
+                // needs a codepage marker (bytes as the encoder writes them: marker, then the codepage's bytes)
+                if kind == "MSO" {
+                    for name in [&b"^E\xec "[..], &b"^C\xef\xf0\xe8 : "[..], &b"^J\x93\xfa\x96\x7b "[..], &b"caf\xe9 "[..]] {
+                        let mut vals = base.clone();
+                        for (q, g) in fields.iter().enumerate() { if fname(g) == "TextStart" { vals[q] = FV::Num(name.len() as u64); } }
+                        let mut text = name.to_vec();
+                        text.extend_from_slice(b"hi");
+                        text.push(0);
+                        while text.len() % 4 != 0 { text.push(0); }
+                        let c = image(k, compressed, &vals, &[], &text);
+                        run_case(ctx, &ls, k, compressed, &c, &format!("name={}", hex(name)), true, true);
+                    }
+                }
                 let (mn, mx) = (tail["min"].as_u64().unwrap_or(4) as usize, tail["max"].as_u64().unwrap_or(64) as usize);
                 for t in [mn, 8, mx] {
                     if t == 0 || t > mx { continue; }
@@ -415,6 +459,10 @@ pub fn run(ctx: &mut Ctx) {
                 }
             }
         }
+    }
+    if C01_MODE.load(std::sync::atomic::Ordering::Relaxed) {
+        ctx.exhaustive_domains.push("canonical frames built from the specification table (every kind x every field x every test value, vectors, texts, both size modes): decode then encode gives the identical bytes".into());
+        return;
     }
     sub_typed(ctx, &ls, &spec);
     *ctx.distribution.entry("field x value cases".into()).or_insert(0) = n_fields;
